@@ -132,7 +132,19 @@ func deliverHello(cl *bubble.Client, mode string) {
 func SeamB(t *testing.T, rep *ev.Report, prop, header string, ref Ref, shard, of int) {
 	shapes := Shapes()
 	if !ev.Thorough() {
-		shapes = []Shape{shapes[0], shapes[1], shapes[3], shapes[6], shapes[10], shapes[12], shapes[13], shapes[14], shapes[15]}
+		// the quick tier's selection, by name (an index list silently changed meaning when shapes were inserted)
+		pick := map[string]bool{"chrome102": true, "chrome120-shuffled-ech": true, "firefox105": true, "safari16": true, "go-tls12": true, "go-nosni": true,
+			"chrome102-nopoints": true, "chrome102-ccs-behind-hello": true, "firefox105-ccs-behind-hello": true, "chrome102-record-16384": true, "chrome102-record-16381": true}
+		var sel []Shape
+		for _, sh := range shapes {
+			if pick[sh.Name] {
+				sel = append(sel, sh)
+			}
+		}
+		if len(sel) != len(pick) {
+			panic("plumb: quick-tier shape selection names a shape that does not exist")
+		}
+		shapes = sel
 	}
 	if shard == of-1 {
 		n := 300
